@@ -944,7 +944,163 @@ def expand_module(tree: ast.Module, modname: str) -> Tuple[int, List[str]]:
     n = ex.run()
     cs = collapse_container_subclasses(tree, known, ex) if n else []
     ea = eafp_lookups(tree, modname)
-    return n + nt + len(cs) + len(ea), te.sites + ex.sites + cs + ea
+    fl = single_use_flags(tree, modname)
+    sp = canonical_spellings(tree, modname)
+    return n + nt + len(cs) + len(ea) + len(fl) + len(sp), te.sites + ex.sites + cs + ea + fl + sp
+
+
+def canonical_spellings(tree: ast.Module, modname: str) -> List[str]:
+    """In functions that changed since the rules were written, two spellings are read in the form the pinned tree uses:
+         x = x + <int literal>   (x a name / attribute path / subscript of such)      ->  x += <int literal>
+         "..{}..{}..".format(a, b)  (constant format string, plain fields only)        ->  f"..{a}..{b}.."
+    Both rewrites are exact (an int literal rules out the list case where `+=` would mutate in place)."""
+    if not _SIGS:
+        return []
+    import string as _string
+
+    out: List[str] = []
+
+    class R(ast.NodeTransformer):
+        def visit_FunctionDef(self, n):
+            return n  # nested definitions are visited through changed_functions themselves
+
+        visit_AsyncFunctionDef = visit_ClassDef = visit_FunctionDef
+
+        def visit_Assign(self, n):
+            self.generic_visit(n)
+            v = n.value
+            if len(n.targets) == 1 and isinstance(v, ast.BinOp) and isinstance(v.op, (ast.Add, ast.Sub)) and isinstance(v.right, ast.Constant) \
+                    and isinstance(v.right.value, int) and not isinstance(v.right.value, bool) and ast.unparse(n.targets[0]) == ast.unparse(v.left) \
+                    and (_pure(n.targets[0]) or (isinstance(n.targets[0], ast.Subscript) and _pure(n.targets[0].value) and (_pure(n.targets[0].slice) or isinstance(n.targets[0].slice, ast.Constant)))):
+                out.append(f"`{ast.unparse(n)[:50]}` at line {n.lineno} read as an augmented assignment")
+                return ast.copy_location(ast.AugAssign(target=n.targets[0], op=v.op, value=v.right), n)
+            return n
+
+        def visit_BinOp(self, n):
+            self.generic_visit(n)
+            # "..%s..%s.." % (a, b): only %s / %% conversions
+            if isinstance(n.op, ast.Mod) and isinstance(n.left, ast.Constant) and isinstance(n.left.value, str):
+                import re as _re
+                fmt = n.left.value
+                toks = _re.split(r"(%%|%s)", fmt)
+                if "%" in "".join(t for t in toks if t not in ("%%", "%s")):
+                    return n  # another conversion (width, %d, %r ...): left alone
+                nsub = sum(1 for t in toks if t == "%s")
+                args = list(n.right.elts) if isinstance(n.right, ast.Tuple) else [n.right]
+                if nsub == 0 or nsub != len(args) or any(isinstance(a, ast.Starred) for a in args) or (not isinstance(n.right, ast.Tuple) and isinstance(n.right, (ast.Dict, ast.Name)) and nsub == 1 and isinstance(n.right, ast.Dict)):
+                    return n
+                vals: List[ast.expr] = []
+                it = iter(args)
+                for t in toks:
+                    if t == "%s":
+                        vals.append(ast.FormattedValue(value=next(it), conversion=-1, format_spec=None))
+                    elif t == "%%":
+                        vals.append(ast.Constant(value="%"))
+                    elif t:
+                        vals.append(ast.Constant(value=t))
+                out.append(f"%-formatting at line {n.lineno} read as an f-string")
+                return ast.copy_location(ast.JoinedStr(values=vals), n)
+            return n
+
+        def visit_Call(self, n):
+            self.generic_visit(n)
+            if isinstance(n.func, ast.Attribute) and n.func.attr == "format" and isinstance(n.func.value, ast.Constant) and isinstance(n.func.value.value, str) \
+                    and not any(isinstance(a, ast.Starred) for a in n.args) and all(k.arg is not None for k in n.keywords):
+                try:
+                    parts = list(_string.Formatter().parse(n.func.value.value))
+                except ValueError:
+                    return n
+                vals: List[ast.expr] = []
+                auto = 0
+                kw = {k.arg: k.value for k in n.keywords}
+                for lit, field, spec, conv in parts:
+                    if lit:
+                        vals.append(ast.Constant(value=lit))
+                    if field is None:
+                        continue
+                    if spec or conv:
+                        return n
+                    if field == "":
+                        if auto >= len(n.args):
+                            return n
+                        e = n.args[auto]
+                        auto += 1
+                    elif field.isdigit():
+                        if int(field) >= len(n.args):
+                            return n
+                        e = n.args[int(field)]
+                    elif field in kw:
+                        e = kw[field]
+                    else:
+                        return n
+                    vals.append(ast.FormattedValue(value=e, conversion=-1, format_spec=None))
+                if not any(isinstance(v_, ast.FormattedValue) for v_ in vals):
+                    return n
+                out.append(f"str.format at line {n.lineno} read as an f-string")
+                return ast.copy_location(ast.JoinedStr(values=vals), n)
+            return n
+
+    for d in changed_functions(tree, modname):
+        d.body = [R().visit(b) for b in d.body]
+        for b in d.body:
+            ast.fix_missing_locations(b)
+    return out
+
+
+def single_use_flags(tree: ast.Module, modname: str) -> List[str]:
+    """In functions that changed since the rules were written: `t = <cond>` directly followed by `if t:` / `if not t:` /
+    `while`-less, where t is assigned once and read once in the whole function, is read as `if <cond>:` (the condition is
+    evaluated at the same point; the name carries nothing else)."""
+    if not _SIGS:
+        return []
+    out = []
+    for d in changed_functions(tree, modname):
+        stores: Dict[str, int] = {}
+        loads: Dict[str, int] = {}
+        for n in ast.walk(d):
+            if isinstance(n, ast.Name):
+                if isinstance(n.ctx, ast.Load):
+                    loads[n.id] = loads.get(n.id, 0) + 1
+                else:
+                    stores[n.id] = stores.get(n.id, 0) + 1
+            elif isinstance(n, ast.arg):
+                stores[n.arg] = stores.get(n.arg, 0) + 1
+        cand = {k for k in stores if stores[k] == 1 and loads.get(k, 0) == 1}
+        if not cand:
+            continue
+
+        def rewrite(stmts):
+            res = []
+            i = 0
+            while i < len(stmts):
+                st = stmts[i]
+                nxt = stmts[i + 1] if i + 1 < len(stmts) else None
+                if isinstance(st, ast.Assign) and len(st.targets) == 1 and isinstance(st.targets[0], ast.Name) and st.targets[0].id in cand and isinstance(nxt, ast.If):
+                    t = st.targets[0].id
+                    tst = nxt.test
+                    neg = isinstance(tst, ast.UnaryOp) and isinstance(tst.op, ast.Not)
+                    core = tst.operand if neg else tst
+                    if isinstance(core, ast.Name) and core.id == t:
+                        val = st.value
+                        nxt.test = ast.copy_location(ast.UnaryOp(op=ast.Not(), operand=val) if neg else val, tst)
+                        ast.fix_missing_locations(nxt)
+                        out.append(f"single-use flag {t} at line {st.lineno} read in place")
+                        i += 1
+                        continue
+                res.append(st)
+                i += 1
+            for st in res:
+                for fld in ("body", "orelse", "finalbody"):
+                    v = getattr(st, fld, None)
+                    if isinstance(v, list) and v and isinstance(v[0], ast.stmt):
+                        setattr(st, fld, rewrite(v))
+                if isinstance(st, ast.Try):
+                    for h in st.handlers:
+                        h.body = rewrite(h.body)
+            return res
+
+        d.body = rewrite(d.body)
+    return out
 
 
 def changed_functions(tree: ast.Module, modname: str) -> List[ast.FunctionDef]:
